@@ -3,6 +3,9 @@
      SET <id>
      DOC <resid> <tokens>     tokens: N | S<hex|-> | L<n> item*n | M<n> (K<hex|-> item)*n   (document order)
      SPEC <fuel> <name>       -> "S <set> <name> <loaded> <linked> <err><cyc><oof> <tree>"
+     IMPL <wf> <fuel> <name>  -> "I <set> <name> <loaded> <linked> <oof><woof><ub> <tree>"
+                                 "IR <set> <name> <resid> <loaded> <tree>"   every resource of that run
+                                 "IL <set> <name> <resid> <ok> <tree>"       Link of the other loaded resources, same state
      END                      -> "E <set>"
    trees are printed like harness/c14/c14.cc prints them. *)
 let rec parse_y (toks : Stdlib.String.t list) : ydoc * Stdlib.String.t list =
@@ -61,6 +64,24 @@ let () =
          let (((loaded, v), fl), linked) = spec_link !ds (nat_of_int (int_of_string fuel)) (bytes_of_string name) in
          Printf.printf "S %s %s %s %s %s%s%s %s\n" !set name (b01 loaded) (b01 linked)
            (b01 fl.f_err) (b01 fl.f_cyc) (b01 fl.f_oof) (canon_s v)
+       | ["IMPL"; wf; fuel; name] ->
+         let wf = nat_of_int (int_of_string wf) and fuel = nat_of_int (int_of_string fuel) in
+         let o = compile_impl !ds wf fuel (bytes_of_string name) in
+         Printf.printf "I %s %s %s %s %s%s%s %s\n" !set name (b01 o.o_loaded) (b01 o.o_linked)
+           (b01 o.o_oof) (b01 o.o_woof) (b01 o.o_ub) (canon_s o.o_tree);
+         let ids = List.sort (fun (a, _) (b, _) -> compare (string_of_bytes a) (string_of_bytes b)) (loaded_ids o.o_state) in
+         List.iter (fun (id, ld) ->
+             Printf.printf "IR %s %s %s %s %s\n" !set name (string_of_bytes id) (b01 ld)
+               (canon_s (resource_tree wf o.o_state id))) ids;
+         let tid = string_of_bytes (to_resource_id (bytes_of_string name)) in
+         let st = ref o.o_state in
+         List.iter (fun (id, ld) ->
+             if ld && string_of_bytes id <> tid then begin
+               let (ok, st') = relink !ds wf fuel !st id in
+               st := st';
+               Printf.printf "IL %s %s %s %s %s\n" !set name (string_of_bytes id) (b01 ok)
+                 (canon_s (resource_tree wf st' id))
+             end) ids
        | ["END"] -> Printf.printf "E %s\n" !set
        | [] -> ()
        | _ -> print_endline "BADLINE");
